@@ -2380,6 +2380,7 @@ void remove_interactive (object_t * ob, int dested) {
        * auto-notification of net death
        */
       safe_apply (APPLY_NET_DEAD, ob, 0, ORIGIN_DRIVER);
+      ob = ip->ob; /* net_dead() may have handed the connection to another object with exec() */
     }
 
   if (ip->snoop_by)
